@@ -44,7 +44,7 @@ CurrTree = Deque[Union[MacroCall, RepCall]]
 OpsQueue = Deque[LastPhaseOp]
 LabelsDict = Dict[str, int]
 
-wflip_start_label = '_.wflip_area_start_'
+wflip_start_label = ':wflip_area_start:'  # not a valid identifier (':'), so it can't collide with a user label
 
 
 def macro_resolve_error(
